@@ -34,14 +34,27 @@ KNOBS = {'stagger': [0.0, 1.0, 4.0, 30.0, 60.0], 'n_min': 2, 'n_max': 4,
          'keep_master': True}
 
 
+# an additional family: the Supervisor of the target of a start / stop request RESTARTS around the delivery of that
+# request, mostly quicker than the failure detection of the requester (the job must end all the same)
+RESTART_KNOBS = dict(KNOBS, crash_on_request_p=0.5, drop_p=[0.0],
+                     crash_on_request_kw={'reboot_p': 1.0, 'down': (0.2, 8.0), 'stops': True, 'delay': (0.0, 1.5)},
+                     behaviours=['normal'] * 6 + ['slow_stop', 'stubborn', 'slow_start'],
+                     actions=['start_application', 'stop_application', 'restart_application', 'start_process',
+                              'stop_process', 'restart_process', 'restart_sequence'],
+                     n_actions=[2, 3, 4, 6], n_min=3, profiles=['wide', 'wide', 'lazy', 'bursty'])
+RESTART_COUNT = {'quick': 160, 'thorough': 3000}
+
+
 def plan(tier, seed):
-    return [{'seed': seed * 1000003 + i} for i in range(COUNT[tier])]
+    return [{'seed': seed * 1000003 + i} for i in range(COUNT[tier])] + \
+        [{'seed': seed * 1000003 + 700000 + i, 'family': 'target-restarts-during-job'}
+         for i in range(RESTART_COUNT[tier])]
 
 
 def run_case(case):
     tracker = Tracker()
     mon = JobTerminationMonitor(tracker)
-    run = Run(case, KNOBS, [tracker, mon])
+    run = Run(case, RESTART_KNOBS if case.get('family') == 'target-restarts-during-job' else KNOBS, [tracker, mon])
     violations = run.execute()
     nontrivial = mon.counters.get('given_up_jobs', 0) > 0 or run.counters.get('dropped_process_publications', 0) > 0
     return {'violations': violations, 'counters': run.counters,
